@@ -69,9 +69,13 @@ def run(tier, seed, replay=None):
                 bad.append("libgraphite2 rejects the font (gr_make_file_face/gr_make_seg failed)")
             if bad:
                 d = harness.save_case(rep, r, nm)
+                sig = None
+                if bad == ["libgraphite2 rejects the font (gr_make_file_face/gr_make_seg failed)"] and gen.has_precontext_only_rule(prog):
+                    # the recorded finding, met by a generated program (two insertions after the only input items)
+                    sig = "C03:engine-rejects-rule-whose-input-items-all-precede-the-first-modified-item"
                 rep.violation(nm, {"case": nm, "options": opts, "checker_lines": bad,
                                    "meaning": "out.ttf written with exit status 0 is not well-formed at the named table/offset/code block",
-                                   "rerun": "cd %s && printf 'font out.ttf\\nc03\\n' | %s" % (d, common.grcv_path())})
+                                   "rerun": "cd %s && printf 'font out.ttf\\nc03\\n' | %s" % (d, common.grcv_path())}, signature=sig)
             stats["fonts_checked"] += 1
             if len(samples) < 3:
                 samples.append({"case": nm, "options": opts, "c03": o["c03"]})
